@@ -171,3 +171,110 @@ package dnsforward
 // (home.onConfigModified -> config.write -> WriteDiskConfig): it must be invoked with no lock held.
 //@ package-callsite fieldcall:github.com/AdguardTeam/AdGuardHome/internal/dnsforward.ServerConfig.ConfigModified() requires nolocks()
 //@ sweep C05 fieldcall:github.com/AdguardTeam/AdGuardHome/internal/dnsforward.ServerConfig.ConfigModified
+
+// ---- C02: upstream answers revealing a blocked CNAME target, address or HTTPS hint are replaced ----
+// ruleBlocked abstracts the verdict of the rule engines (urlfilter) for one name or address under the client's settings.
+//@ declare ruleBlocked(host string, rrtype uint16, setts *filtering.Settings) bool
+// httpsV[rr] is the verdict filterHTTPSRecords reached for the HTTPS record rr when it was examined.
+//@ ghost var httpsV map[int]bool
+
+//@ func (s *Server) checkHostRules(host string, rrtype rules.RRType, setts *filtering.Settings) (r *filtering.Result, err error)
+//@   trusted
+//@   requires !held(s.serverLock) && !rheld(s.serverLock)
+//@   ensures err == nil ==> r != nil && r.IsFiltered == ruleBlocked(host, rrtype, setts)
+//@   ensures err != nil ==> r == nil
+//@   modifies nothing
+
+//@ define hintBlocked(hint []net.IP, setts *filtering.Settings) bool = exists k int :: 0 <= k && k < len(hint) && ruleBlocked(hint[k].String(), 65, setts)
+// A non-nil result means "blocked"; nil means no address of the hint matched.
+//@ func (s *Server) filterSVCBHint(hint []net.IP, setts *filtering.Settings) (res *filtering.Result, err error)
+//@   property C02
+//@   requires !held(s.serverLock) && !rheld(s.serverLock)
+//@   ensures verdict: err == nil ==> (res != nil <==> hintBlocked(hint, setts))
+//@   ensures non-nil-is-blocked: res != nil ==> res.IsFiltered
+//@   ensures err != nil ==> res == nil
+//@   modifies nothing
+//@   loop 1 invariant forall k int :: {mark(k)} 0 <= k && k < #i ==> !ruleBlocked(hint[k].String(), 65, setts)
+
+//@ define kvBlocked(kv dns.SVCBKeyValue, setts *filtering.Settings) bool = (typeIs(kv, *dns.SVCBIPv4Hint) && hintBlocked(unbox(kv, *dns.SVCBIPv4Hint).Hint, setts)) || (typeIs(kv, *dns.SVCBIPv6Hint) && hintBlocked(unbox(kv, *dns.SVCBIPv6Hint).Hint, setts))
+//@ define recBlocked(vals []dns.SVCBKeyValue, setts *filtering.Settings) bool = exists j int :: 0 <= j && j < len(vals) && kvBlocked(vals[j], setts)
+//@ func removeIPv6Hints(rr *dns.HTTPS)
+//@   trusted
+//@   ensures forall j int :: 0 <= j && j < len(rr.Value) ==> !typeIs(rr.Value[j], *dns.SVCBIPv6Hint)
+//@   modifies rr.Value, elems(rr.Value)
+// Every hint key of the record is examined (after IPv6 hints were stripped when AAAA is disabled).
+//@ func (s *Server) filterHTTPSRecords(rr *dns.HTTPS, setts *filtering.Settings) (r *filtering.Result, err error)
+//@   property C02
+//@   requires !held(s.serverLock) && !rheld(s.serverLock)
+//@   ensures verdict: err == nil ==> (r != nil <==> recBlocked(rr.Value, setts))
+//@   ensures non-nil-is-blocked: r != nil ==> r.IsFiltered
+//@   ensures err != nil ==> r == nil
+//@   ghost at return: httpsV[rr] = (r != nil)
+//@   modifies rr.Value, elems(rr.Value)
+//@   loop 1 invariant forall j int :: {mark(j)} 0 <= j && j < #i ==> !kvBlocked(rr.Value[j], setts)
+
+//@ func (s *Server) genDNSFilterMessage(dctx *proxy.DNSContext, res *filtering.Result) (resp *dns.Msg)
+//@   trusted
+//@   ensures resp != nil && fresh(resp)
+//@   modifies nothing
+
+//@ define rrBlocked(rr dns.RR, setts *filtering.Settings) bool = (typeIs(rr, *dns.CNAME) && ruleBlocked(strings.TrimSuffix(unbox(rr, *dns.CNAME).Target, "."), 5, setts)) || (typeIs(rr, *dns.A) && ruleBlocked(unbox(rr, *dns.A).A.String(), 1, setts)) || (typeIs(rr, *dns.AAAA) && ruleBlocked(unbox(rr, *dns.AAAA).AAAA.String(), 28, setts)) || (typeIs(rr, *dns.HTTPS) && httpsV[unbox(rr, *dns.HTTPS)])
+// The first offending record - wherever it sits - replaces the response; without one the answer is delivered unchanged.
+//@ func (s *Server) filterDNSResponse(dctx *dnsContext) (err error)
+//@   property C02
+//@   requires !held(s.serverLock) && !rheld(s.serverLock)
+//@   requires dctx.setts != nil && dctx.proxyCtx != nil && dctx.proxyCtx.Res != nil && dctx.proxyCtx.Req != nil && len(dctx.proxyCtx.Req.Question) > 0
+//@   ensures filtering-off: !old(dctx.setts.FilteringEnabled) ==> err == nil && dctx.proxyCtx.Res == old(dctx.proxyCtx.Res) && dctx.result == old(dctx.result)
+//@   ensures replaced: err == nil && dctx.proxyCtx.Res != old(dctx.proxyCtx.Res) ==> fresh(dctx.proxyCtx.Res) && dctx.origResp == old(dctx.proxyCtx.Res) && dctx.result != nil && dctx.result.IsFiltered
+//@   ensures delivered-unchanged: err == nil && old(dctx.setts.FilteringEnabled) && dctx.proxyCtx.Res == old(dctx.proxyCtx.Res) ==> (forall k int :: 0 <= k && k < len(old(dctx.proxyCtx.Res.Answer)) ==> !rrBlocked(old(dctx.proxyCtx.Res.Answer)[k], old(dctx.setts))) && dctx.result == old(dctx.result) && dctx.origResp == old(dctx.origResp)
+//@   modifies *
+//@   loop 1 invariant dctx.proxyCtx == pctx && dctx.setts == setts && setts == old(dctx.setts) && pctx == old(dctx.proxyCtx) && pctx.Res == old(dctx.proxyCtx.Res) && pctx.Req == old(dctx.proxyCtx.Req) && len(pctx.Req.Question) > 0
+//@   loop 1 invariant dctx.result == old(dctx.result) && dctx.origResp == old(dctx.origResp) && !held(s.serverLock) && !rheld(s.serverLock)
+//@   loop 1 invariant forall k int :: {mark(k)} 0 <= k && k < len(old(dctx.proxyCtx.Res.Answer)) ==> pctx.Res.Answer[k] == old(dctx.proxyCtx.Res.Answer)[k]
+//@   loop 1 invariant len(pctx.Res.Answer) == len(old(dctx.proxyCtx.Res.Answer))
+//@   loop 1 invariant forall k int :: {mark(k)} 0 <= k && k < #i ==> !rrBlocked(old(dctx.proxyCtx.Res.Answer)[k], setts)
+
+// Gates of the response-filtering stage (C02): it runs exactly for upstream-resolved answers with protection on that were
+// neither allow-listed nor rewritten; a response obtained by resolving is always marked as coming from the upstream.
+//@ define answersClean(dctx *dnsContext) bool = forall k int :: 0 <= k && k < len(dctx.proxyCtx.Res.Answer) ==> !rrBlocked(dctx.proxyCtx.Res.Answer[k], dctx.setts)
+//@ func (s *Server) filterAfterResponse(dctx *dnsContext) (res resultCode)
+//@   property C02
+//@   requires !held(s.serverLock) && !rheld(s.serverLock)
+//@   requires dctx.setts != nil && dctx.proxyCtx != nil && dctx.proxyCtx.Res != nil && dctx.proxyCtx.Req != nil && len(dctx.proxyCtx.Req.Question) > 0
+//@   ensures not-applicable: !(old(dctx.protectionEnabled) && old(dctx.responseFromUpstream) && old(dctx.setts.FilteringEnabled)) ==> res == resultCodeSuccess && dctx.proxyCtx.Res == old(dctx.proxyCtx.Res) && dctx.result == old(dctx.result)
+//@   ensures delivered-only-if-clean: old(dctx.protectionEnabled) && old(dctx.responseFromUpstream) && old(dctx.setts.FilteringEnabled) && res == resultCodeSuccess && dctx.proxyCtx.Res == old(dctx.proxyCtx.Res) ==> (forall k int :: 0 <= k && k < len(old(dctx.proxyCtx.Res.Answer)) ==> !rrBlocked(old(dctx.proxyCtx.Res.Answer)[k], old(dctx.setts)))
+//@   ensures replaced: res == resultCodeSuccess && dctx.proxyCtx.Res != old(dctx.proxyCtx.Res) ==> fresh(dctx.proxyCtx.Res) && dctx.origResp == old(dctx.proxyCtx.Res) && dctx.result != nil && dctx.result.IsFiltered
+//@   modifies *
+
+//@ func (s *Server) processFilteringAfterResponse(dctx *dnsContext) (rc resultCode)
+//@   property C02
+//@   requires !held(s.serverLock) && !rheld(s.serverLock)
+//@   requires dctx.result != nil && dctx.setts != nil && dctx.proxyCtx != nil && dctx.proxyCtx.Res != nil && dctx.proxyCtx.Req != nil && len(dctx.proxyCtx.Req.Question) > 0 && len(dctx.proxyCtx.Res.Question) > 0
+//@   ensures stage-runs: !(old(dctx.result.Reason) == filtering.NotFilteredAllowList || old(dctx.result.Reason) == filtering.Rewritten || old(dctx.result.Reason) == filtering.RewrittenRule || old(dctx.result.Reason) == filtering.FilteredSafeSearch) && old(dctx.protectionEnabled) && old(dctx.responseFromUpstream) && old(dctx.setts.FilteringEnabled) && rc == resultCodeSuccess && dctx.proxyCtx.Res == old(dctx.proxyCtx.Res) ==> (forall k int :: 0 <= k && k < len(old(dctx.proxyCtx.Res.Answer)) ==> !rrBlocked(old(dctx.proxyCtx.Res.Answer)[k], old(dctx.setts)))
+//@   ensures allow-listed-delivered: old(dctx.result.Reason) == filtering.NotFilteredAllowList ==> rc == resultCodeSuccess && dctx.proxyCtx.Res == old(dctx.proxyCtx.Res) && len(dctx.proxyCtx.Res.Answer) == old(len(dctx.proxyCtx.Res.Answer))
+//@   modifies *
+
+//@ func (s *Server) setRespAD(pctx *proxy.DNSContext, reqWantsDNSSEC bool)
+//@   property C02
+//@   requires pctx.Req != nil && pctx.Res != nil
+//@   modifies pctx.Req.AuthenticatedData, pctx.Res.AuthenticatedData
+//@ func (s *Server) processUpstream(dctx *dnsContext) (rc resultCode)
+//@   property C02
+//@   requires dctx.proxyCtx != nil && dctx.proxyCtx.Req != nil && len(dctx.proxyCtx.Req.Question) > 0
+//@   requires dctx.isDHCPHost ==> len(dctx.proxyCtx.Req.Question[0].Name) > 0
+//@   requires !held(s.serverLock) && !rheld(s.serverLock)
+//@   ensures resolved-is-marked: old(dctx.proxyCtx.Res) == nil && rc == resultCodeSuccess ==> dctx.responseFromUpstream
+//@   ensures already-answered: old(dctx.proxyCtx.Res) != nil ==> rc == resultCodeSuccess && dctx.proxyCtx.Res == old(dctx.proxyCtx.Res) && dctx.responseFromUpstream == old(dctx.responseFromUpstream)
+//@   modifies *
+// helpers of processUpstream that only touch the fields named (bodies call into interfaces / the dns library: trusted frames)
+//@ func (s *Server) setCustomUpstream(pctx *proxy.DNSContext, clientID string)
+//@   trusted
+//@   modifies pctx.CustomUpstreamConfig
+//@ func (s *Server) setReqAD(req *dns.Msg) (wantsDNSSEC bool)
+//@   trusted
+//@   modifies req.AuthenticatedData
+//@ func (s *Server) proxy() (p *proxy.Proxy)
+//@   property C02
+//@   requires !held(s.serverLock) && !rheld(s.serverLock)
+//@   ensures p == s.dnsProxy
+//@   modifies nothing
